@@ -180,6 +180,10 @@ class JokerPrior:
                 )
                 raise ValueError(msg)
 
+        # The k-th offset column of the design matrix belongs to the parameter
+        # named dv0_k: keep the list in that order however it was passed in
+        self.v0_offsets = [pars[name] for name in self._v0_offsets_equiv_units]
+
         self.pars = pars
 
     @classmethod
